@@ -876,7 +876,7 @@ func (e *emitter) loop(l *LoopRec) bool {
 		for k, v := range nextBools {
 			e.bools[k] = v
 		}
-		if counted && l.Post != nil {
+		if counted && (l.Post != nil || l.PostStep != nil) {
 			ints := map[types.Object]int64{}
 			for o := range l.Init {
 				if v, ok := e.ints[key(TVar{o})]; ok {
